@@ -1,6 +1,7 @@
 import KyupyVerif.Drv.Sdf
 import KyupyVerif.Drv.Encode
 import KyupyVerif.Drv.Stil
+import KyupyVerif.Drv.StilSim
 import KyupyVerif.Drv.Def
 import KyupyVerif.Drv.Datasheet
 import KyupyVerif.Drv.Traverse
@@ -8,6 +9,7 @@ import KyupyVerif.Drv.CircObj
 import KyupyVerif.Drv.Netlist
 import KyupyVerif.Drv.NetText
 import KyupyVerif.Drv.Transform
+import KyupyVerif.Drv.ImplCert
 import KyupyVerif.Drv.WaveStrip
 import KyupyVerif.Drv.Grid
 import KyupyVerif.Drv.WaveIO
@@ -21,6 +23,7 @@ def extHandlers : List (String → List String → Option String) := [
   KV.Drv.Sdf.handle,
   KV.Drv.Encode.handle,
   KV.Drv.Stil.handle,
+  KV.Drv.StilSim.handle,
   KV.Drv.Def.handle,
   KV.Drv.Datasheet.handle,
   KV.Drv.Traverse.handle,
@@ -28,6 +31,7 @@ def extHandlers : List (String → List String → Option String) := [
   KV.Drv.Netlist.handle,
   KV.Drv.NetText.handle,
   KV.Drv.Transform.handle,
+  KV.Drv.ImplCert.handle,
   KV.Drv.WaveStrip.handle,
   KV.Drv.Grid.handle,
   KV.Drv.WaveIO.handle,
